@@ -1,6 +1,7 @@
 (* Properties/C02.v — derived Equal is exactly structural equality.
    Statements only; proofs are in Go/EqualProofs.v. *)
-From Verif Require Import Go.Ty Go.Val Go.Equal Go.EqualProofs Go.CompareSpec Go.Canon.
+From Verif Require Import Go.Ty Go.Val Go.Equal Go.EqualProofs Go.CompareSpec Go.Canon Go.Invariance.
+From Coq Require Import Permutation.
 
 (* For every type and all well-typed (acyclic, NaN-free) values the generated comparison — in
    both generator modes: body of a deriveEqual function (Top) and component expression (Fld) —
@@ -58,6 +59,21 @@ Theorem C02_equal_is_canonical_form : forall e t x y, has_type e t x = true -> h
   (enc e t x = enc e t y <-> spec_eq e t x y = Some true).
 Proof. exact enc_eq_iff. Qed.
 Print Assumptions C02_equal_is_canonical_form.
+
+(* irrespective of pointer identity and spare capacity: erasing every address label and every
+   element between len and cap changes nothing *)
+Theorem C02_equal_ignores_addresses_and_capacity : forall e t x y,
+  has_type e t x = true -> has_type e t y = true ->
+  spec_eq e t (erase x) (erase y) = spec_eq e t x y.
+Proof. exact spec_eq_erase. Qed.
+Print Assumptions C02_equal_ignores_addresses_and_capacity.
+
+(* irrespective of map insertion order: any two listings of the same entries are equal *)
+Theorem C02_equal_ignores_map_order : forall e t l l' xm xm',
+  has_type e t (VMap l xm) = true -> has_type e t (VMap l' xm') = true ->
+  Permutation xm xm' -> spec_eq e t (VMap l xm) (VMap l' xm') = Some true.
+Proof. exact spec_eq_map_perm. Qed.
+Print Assumptions C02_equal_ignores_map_order.
 
 (* the pinned tree before fix 703d315: bytes.Equal alone ignored nil-ness of []byte fields *)
 Theorem C02_equal_bytes_old_refuted :
